@@ -1,6 +1,7 @@
 (* C09 -- a failed Array append leaves exactly the completed chunks. *)
 From Coq Require Import ZArith List Bool.
-From Darr Require Import Base ArrayModel Spec Proofs.ArrayRefine Proofs.ArrayHist.
+From Darr Require Import Base ArrayModel Spec Proofs.ArrayRefine Proofs.ArrayHist
+     Skel Gen_effects EffectOrder Proofs.SkelProofs.
 Import ListNotations.
 Open Scope Z_scope.
 
@@ -49,3 +50,17 @@ Example C09_example_empty_start :
   a_data (snd (snd (step ex_e (OpIterAppend [CWriteFail [] [[4;0];[5;0]] 3])))) = Some [] /\
   a_data (snd (snd (step ex_e (OpIterAppend [CGood [] [[4;0]]; CRaise])))) = Some [4;0].
 Proof. unfold Rel, ex_e; cbn. repeat split; try reflexivity; repeat constructor. Qed.
+
+(* The recovery path as the present source spells it (tie by translation, see C17):
+   Gen_effects.sk_iterappend is the control skeleton of Array.iterappend regenerated from
+   darr/array.py on every run; the effect log of every call of the model -- every state,
+   every fault plan -- is, kind by kind and in order, a run that skeleton admits: chunks
+   appended, then (on failure) description, README, and the data file cut back; for an
+   array that starts empty the first chunk is written through the path and cut to 0 when
+   that write fails.  A step moved, dropped or added in iterappend / _append / _update_len
+   changes Gen_effects.v and this no longer checks. *)
+Theorem C09_recovery_order_from_source : forall h d cs r h' es,
+  iterappend h d cs = (r, h', es) ->
+  exists o, oc_match r o /\ aruns sk_iterappend o (map kind_of es).
+Proof. exact iterappend_runs. Qed.
+Print Assumptions C09_recovery_order_from_source.
